@@ -581,6 +581,8 @@ class Schema:
         """Sets in optyx hold Variables (hash/eq by name) or ints; represented by membership predicates."""
         if isinstance(items, list) or isinstance(items, PList):
             its = items if isinstance(items, list) else items.items
+            if its and all(isinstance(x, (str, int, float)) for x in its):
+                return tuple(its)       # concrete set of literals: only membership tests are made
             if all(isinstance(x, (Obj, Opaque)) for x in its):
                 names = [self.name_of(ip, x) for x in its]
                 return SSet(lambda nm, names=names: z3.Or(*[nm == t for t in names]) if names else z3.BoolVal(False), "literal")
@@ -703,3 +705,15 @@ class Schema:
         if h is None:
             raise Unsupported("filtered comprehension over a symbolic-length sequence")
         return h(ip, e, fr, first)
+
+    def isfinite(self, ip, v):
+        """np.isfinite on scalars: symbolic reals are finite by A1/A7; concrete floats are tested."""
+        import math
+        if isinstance(v, (int, float)):
+            return math.isfinite(v)
+        if isinstance(v, (SReal, SInt)):
+            return True
+        h = getattr(ip.reg, "isfinite_hook", None)
+        if h is not None:
+            return h(ip, v)
+        raise Unsupported(f"np.isfinite of {type(v).__name__}")
